@@ -1,11 +1,15 @@
 import Mouette.Model.Proto
 import Mouette.Model.MeshHeap
+import Mouette.Model.MeshCopy
 /-
 Protocol front-end for C06.
   request: `<nops> op*` with
     new <nv> (x y z)* <nE> (<len> idx*)* <nF> (<len> idx*)* <nC> (<len> idx*)*
     copy i | merge <k> id* | translate i tx ty tz | scale i k (N | ox oy oz) | scalexyz i fx fy fz (N | ox oy oz)
     rotate i r11 … r33 (N | ox oy oz) | flatten i dim | normalize i (0|1) | toorigin i | edit i v c x
+    copyx i (0|1 attrs) (0|1 connectivity) | cattr i | sattr i v x y z | eattr i v c x     (round 2)
+  per mesh the record also carries `W (N | <n> (x y z)*)` (vertex attribute "w") and `K <own> <shared>` (its connectivity
+  handler points back at itself / number of other meshes holding the same handler object)
   reply: ` | `-separated records, one per op: the whole state after the op,
     `<nmeshes> ( <dim> <nv> (x y z)* E <n> (<len> idx*)* F … C … )*`
 -/
@@ -35,20 +39,38 @@ def op : P Op := do
   | "edit" => do let i ← nat; let v ← nat; let c ← nat; let x ← rat; pure (.edit i v c x)
   | _ => failure
 
+def opX : P OpX := fun ts =>
+  match ts with
+  | "copyx" :: r => (do let i ← nat; let a ← bool; let c ← bool; pure (OpX.copyX i a c) : P OpX) r
+  | "cattr" :: r => (do let i ← nat; pure (OpX.createAttr i) : P OpX) r
+  | "sattr" :: r => (do let i ← nat; let v ← nat; let x ← v3; pure (OpX.setAttr i v x) : P OpX) r
+  | "eattr" :: r => (do let i ← nat; let v ← nat; let c ← nat; let x ← rat; pure (OpX.editAttr i v c x) : P OpX) r
+  | _ => (do let o ← op; pure (OpX.base o) : P OpX) ts
+
 def fmtV3 (v : V3) : String := s!"{fmtRat v.x} {fmtRat v.y} {fmtRat v.z}"
 def fmtElts (l : List (List Nat)) : String := fmtList fmtNats l
 
 def fmtMesh (h : Heap) (m : Mesh) : String :=
   s!"{m.dim} {fmtList fmtV3 (coords h m)} E {fmtElts m.edges} F {fmtElts m.faces} C {fmtElts m.cells}"
 
-def fmtState (s : State) : String := fmtList (fmtMesh s.heap) s.meshes
+def fmtExtra (s : StateX) (idx : Nat) : String :=
+  match s.extras[idx]? with
+  | none => "W N K 0 0"
+  | some e =>
+    let w := match attrRows s.st.heap e with | none => "N" | some rows => fmtList fmtV3 rows
+    let own := match s.conns[e.conn]? with | some c => decide (c.master = idx) | none => false
+    let shared := ((List.range s.extras.length).filter (fun j => j != idx && (s.extras[j]?.map (·.conn)) == some e.conn)).length
+    s!"W {w} K {fmtBool own} {shared}"
 
-def trace (ops : List Op) : String :=
-  let (_, out) := ops.foldl (fun (acc : State × List String) o =>
-    let s' := step acc.1 o
-    (s', acc.2 ++ [fmtState s'])) (init, [])
+def fmtState (s : StateX) : String :=
+  fmtList (fun (p : Nat × Mesh) => s!"{fmtMesh s.st.heap p.2} {fmtExtra s p.1}") (List.zip (List.range s.st.meshes.length) s.st.meshes)
+
+def trace (ops : List OpX) : String :=
+  let (_, out) := ops.foldl (fun (acc : StateX × List String) o =>
+    let s' := stepX acc.1 o
+    (s', acc.2 ++ [fmtState s'])) (initX, [])
   " | ".intercalate out
 
-def handle (ts : List String) : Option String := (runP (listOf op) ts).map trace
+def handle (ts : List String) : Option String := (runP (listOf opX) ts).map trace
 
 end Mouette.DriveC06
